@@ -35,6 +35,9 @@ func (d *drv) round(i int) {
 	d.actionCache(f, 8)
 	d.assetAndCaps(f, 5)
 	d.httpFamily(f, 18)
+	for k := 0; k < 3; k++ {
+		d.refusal(refusalCauses[d.r.Intn(len(refusalCauses))], refusalPaths[d.r.Intn(len(refusalPaths))], 1+d.r.Intn(3))
+	}
 	d.rest(fmt.Sprintf("round %d requests (%s)", i, f.mode))
 	d.mutations(f, 3)
 	d.rest(fmt.Sprintf("round %d file mutations (%s)", i, f.mode))
@@ -438,7 +441,7 @@ type treeStream struct {
 	sent int
 }
 
-func (t *treeStream) Context() context.Context        { return t.ctx }
+func (t *treeStream) Context() context.Context       { return t.ctx }
 func (t *treeStream) Send(*pb.GetTreeResponse) error { t.sent++; return nil }
 
 func (d *drv) getTree(f *fx, n int) {
